@@ -2,7 +2,7 @@
 from ..rules import flow
 from .common import declare
 
-RULES = ['PROPAGATE', 'FLAT-RETURN', 'BOUND-PLUMB', 'NOTIFY-ON-FREE', 'EMIT-CONVERT', 'SYNC-TRANSPORT']
+RULES = ['PROPAGATE', 'FLAT-RETURN', 'BOUND-PLUMB', 'NOTIFY-ON-FREE', 'EMIT-CONVERT', 'SYNC-TRANSPORT', 'AWAITABLE-RESULT']
 FLOORS = {'PROPAGATE': 40, 'FLAT-RETURN': 30, 'BOUND-PLUMB': 8, 'NOTIFY-ON-FREE': 1, 'EMIT-CONVERT': 3, 'SYNC-TRANSPORT': 3}
 
 META = {
@@ -32,3 +32,4 @@ def run(ctx, R):
     R.run(flow.check_bound_plumb, ctx, R)
     R.run(flow.check_emit_convert, ctx, R)
     R.run(flow.check_sync_transport, ctx, R)
+    R.run(flow.check_awaitable_result, ctx, R, classes)
